@@ -630,8 +630,10 @@ def run_noisy_checkers(ctx, batch):
     (Model.FuzzySort.check_noisy_sorted, proved to imply pointwise closeness of the two point lists)"""
     from fieldcompare.mesh import sort_points, strip_orphan_points
     header = """From Coq Require Import QArith ZArith Arith Bool List.
-From FC Require Import Model.Scalar Model.Mesh Model.SortSpec Model.FuzzySort.
+From FC Require Import Model.Scalar Model.Mesh Model.SortSpec Model.FuzzySort Model.FuzzySortAlgo.
 Import ListNotations.
+Definition chk bss rel abs v1 v2 (inp : list point) (d : nat) : bool :=
+  check_noisy_sorted bss rel abs v1 v2 && zlist_eqb (map (cls bss) v1) (fuzzy_lex_sort isort_by d (map (cls bss) inp)).
 """
     exprs, metas = [], []
     for canon, M, N in batch:
@@ -645,11 +647,13 @@ Import ListNotations.
         bss = [cluster_boundaries([p[d] for p in A["pts"] + B["pts"]], gap) for d in range(M["dim"])]
         Q = lambda x: lib.cqfrac(x)  # noqa: E731
         P = lambda X: clist([clist([Q(x) for x in p], "Q") for p in X["pts"]], "point")  # noqa: E731
-        exprs.append(f"check_noisy_sorted {clist([clist([Q(b) for b in bs], 'Q') for bs in bss], '(list Q)')} {Q(rel)} {Q(ab)} {P(A)} {P(B)}")
+        used = sorted({c for _, rows in M["blocks"] for r in rows for c in r})
+        inp = {"pts": [M["pts"][i] for i in used]}       # connected points of the source in their storage order
+        exprs.append(f"chk {clist([clist([Q(b) for b in bs], 'Q') for bs in bss], '(list Q)')} {Q(rel)} {Q(ab)} {P(A)} {P(B)} {P(inp)} {cnat(M['dim'])}")
         metas.append(canon)
     vals = ctx.coq_eval(header, exprs, name="noisychk", shard=100)
     for canon, v in zip(metas, vals):
-        ctx.tie("T3 check_noisy_sorted on the sorted views of noisy pairs")
+        ctx.tie("T3 check_noisy_sorted on the sorted views of noisy pairs + class vectors equal to Model.FuzzySortAlgo's output")
         if v is not True:
             ctx.violation("E3", "the sorted views of a noisy equal pair do not meet the class-vector sorting specification "
                           "(check_noisy_sorted rejects them)", canon, found_input=False)
